@@ -13,6 +13,54 @@ CHECKS = {
  "C05": ("property-based testing (rapid) + bounded-exhaustive short strings + native go fuzzing (thorough); oracle: AST invariant validator applied to every node of every parsed tree",
          "Generated-input search against a validity predicate written from the property statement (child-list consistency, no shared nodes, public kinds in legal places, levels, every segment inside the source, line order, inline text order inside the block's lines). Exhaustive for strings of length <= 3/4 over a 23-symbol alphabet x 4 configurations.",
          "Trusted: the validator (oracle/astcheck.go) and its reading of 'legal places'; documents up to 16 KiB."),
+ "C03": ("property-based testing (rapid) over HTML/attribute-heavy soup and adversarial fragments in every attribute-bearing position x every safe configuration; native go fuzzing (thorough); oracle: strict HTML tokenizer + fixed vocabulary + browser tokenizer agreement + strict XML under XHTML",
+         "Generated-input search against a validity predicate over the output: a strict tokenizer that accepts only text, quoted-attribute start tags, end tags, void self-closing tags and the placeholder comment; nesting; tag and attribute vocabulary per configuration; agreement with golang.org/x/net/html's lenient tokenizer; encoding/xml strict parse under XHTML.",
+         "Trusted: oracle/html.go, the literal vocabulary table, Go's html/xml packages and x/net/html."),
+ "C04": ("property-based testing (rapid) with a URL attack grammar placed in every URL-bearing construct x safe configurations; native go fuzzing (thorough); oracle: every href/src decoded like a browser and normalised per WHATWG preprocessing must not be javascript:/vbscript:/file:/non-image data:",
+         "Generated-input search: scheme spellings (case flips, backslash escapes, named/decimal/hex references with leading zeros, percent-encoding, leading/embedded whitespace and controls) in inline/reference links and images, autolinks, nested constructs, containers; a generator-health self-check requires unsafe mode to emit a dangerous URL in >= 15% of attack documents.",
+         "Trusted: the browser model (x/net/html attribute decoding + WHATWG preprocessing) in oracle/html.go."),
+ "C06": ("property-based testing (rapid), history-as-data state machine: Convert / Parse+Render / re-render kept trees / render trees parsed by another instance / caller-supplied Context on one long-lived instance; oracle: metamorphic - every output equals the canonical output of a brand-new instance",
+         "Generated call histories (2..14 operations over a pool of 2..6 documents, definer/user pairs for references, heading ids, footnotes, quotes, tables, fences) against a history-independence oracle.",
+         "Trusted: instances are created fresh per case; canonical output computed by a brand-new instance per document."),
+ "C08": ("property-based testing (rapid), metamorphic relation Convert(q^n(D)) == blockquote-wrapped Convert(D) over TAB/CR-free documents x {core,GFM} x {safe,unsafe,xhtml}; exhaustive over the 639 TAB/CR-free spec examples with spec.json as the independent expected side",
+         "Metamorphic relation from CommonMark 5.1 checked by byte equality on generated documents (soup, line soup, repository inputs, mutations), n-fold nesting up to 3, plus all spec examples against spec.json.",
+         "Trusted: the quoting function q and spec.json."),
+ "C09": ("property-based testing (rapid), metamorphic relations: concatenation of a closed document, a heading and any document renders as the concatenation; moving a block of reference definitions from top to bottom changes nothing",
+         "Generated pairs with A closed by construction (never by asking goldmark) and documents with spliced references to fresh labels in case/whitespace variants; byte equality.",
+         "Trusted: the syntactic closedness construction in gen/closed.go; 'no link reference syntax' enforced as 'no [ byte'."),
+ "C10": ("property-based testing (rapid), two-pointer aligners over the 8 outputs of the {XHTML, HardWraps, Unsafe} cube (12 edges) admitting only the licensed edit per option; soft-break count and raw-HTML chunks taken from the AST",
+         "Generated documents x extension sets (table alignment pinned, East-Asian line-break suppression off); each edge of the option cube is checked with an aligner that accepts only ' />' on void tags, '<br>' before LF (count = rendered soft breaks), placeholder<->raw bytes and empty<->dangerous URL.",
+         "Trusted: the aligners in checks/c10 and the harness's own dangerous-URL classification."),
+ "C11": ("property-based testing (rapid), metamorphic relation Convert_X(d) == Convert_{X+E}(d) for documents free of E's trigger set by construction, for each of 8 extensions and random base configurations; GFM vs its four members on unrestricted documents",
+         "Generated trigger-free documents (profiles remove the trigger bytes/substrings by construction) x base configurations; byte equality. Known finding F17 (CSS3Draft style and ASCII punctuation) is excluded by a cause signature.",
+         "Trusted: the trigger sets as listed in the property; base configurations never use the CSS3Draft style (F17)."),
+ "C12": ("property-based testing (rapid) + native go fuzzing (thorough) with the source in read-only mmap pages (read-only spare capacity) under debug.SetPanicOnFault, plus canary bytes on ordinary memory; all exported util transformers on read-only inputs",
+         "Generated documents/configurations converted from PROT_READ memory: any store or append into the source faults and is reported; canaries around an ordinary copy are compared; a self-test proves the detector fires.",
+         "Trusted: linux mmap/mprotect, Go's SetPanicOnFault; only Convert/Parse/Render/Lines.Value/Text and the listed util functions are exercised."),
+ "C13": ("property-based testing (rapid) of operation sequences as data + bounded-exhaustive enumeration (all sequences of length <= 2 quick / <= 3 thorough over a pool of 4 nodes x 4 initial forests) against a list-of-children reference model; walker status scripts against a reference recursion",
+         "Model-based testing of the mutation API with the model enforcing the documented preconditions; exhaustive for short sequences.",
+         "Trusted: the model in checks/c13; SortChildren judged by a validity predicate; nil reference only for InsertBefore."),
+ "C14": ("fault injection: for generated documents every byte offset k (outputs <= 600 bytes) or a dense grid around multiples of 4096 (5-40 KiB outputs) at which the writer starts failing, x writer kinds (plain, caller bufio 16/4096/65536) x API (Convert, Parse+Render) x fault modes; oracle: error identity (errors.Is), prefix property, no panic",
+         "Enumeration of fault offsets per generated document: exhaustive for small outputs, boundary-dense for large ones.",
+         "Trusted: the fault-injecting writer; the injected error is a sentinel compared with errors.Is."),
+ "C15": ("property-based testing (rapid) with a heading grammar (repeated/empty/punctuation-only/non-ASCII/suffix-colliding texts, ATX and Setext, containers) x configurations with AutoHeadingID x conversion history on one instance; oracle over the tokenised output: one non-empty id per heading, pairwise distinct, equal to a fresh instance's ids",
+         "Generated heading multisets and histories against a validity predicate over the output plus a history-independence relation.",
+         "Trusted: strict HTML tokenizer (safe mode); Attribute option off as the property demands."),
+ "C16": ("property-based testing (rapid) with a footnote grammar; oracle over the tokenised output: item numbering, reference->item links and numbers, back-link->reference bijection, distinct ids, never-referenced definitions invisible",
+         "Generated documents mixing definitions/references in any order, multiplicity and position. Known findings F10a/F10b (references counted though never rendered) are excluded by cause signatures computed on the AST; everything else must hold.",
+         "Trusted: strict HTML tokenizer; id scheme '<prefix>fn:N' / '<prefix>fnrefK:N' as rendered by the extension."),
+ "C17": ("property-based testing (rapid) with a table row model (expected shape known by construction) and pipe/dash/colon soup; oracle: one thead/tr, n th, every body row n td, tbody iff rows, per-column alignment, mismatched header => no table; AST side: rows of len(Alignments) cells",
+         "Generated row models serialised with optional outer pipes, escaped pipes, containers; and structural rectangularity on soup.",
+         "Trusted: the row model avoids spellings whose cell count is implementation-defined (blank first/last cells, cells ending in a backslash)."),
+ "C18": ("property-based testing (rapid) of call sequences as data on Reader and BlockReader + bounded-exhaustive enumeration (all sources of length <= 3 quick / <= 4 thorough over 7 symbols x all sequences of length <= 3 over 8 core calls x 3 reader shapes) against a flat cursor model; Segment arithmetic as pure functions",
+         "Model-based testing against a cursor model (line, start, remaining padding).",
+         "Trusted: the cursor model; LineOffset measured from the reader's own line head; BlockReader.Value compared for whole-line segments and unpadded ranges only."),
+ "C19": ("property-based testing (rapid) of algebraic laws + bounded-exhaustive strings (length <= 4 quick / <= 5 thorough over 14 symbols) + all code points for per-rune laws; references built by construction; BytesFilter programs with colliding keys against Go maps",
+         "Laws (no forbidden bytes, round trips through html.UnescapeString, idempotence, preservation of %XX, UTF-8 validity, label equivalence under whitespace/SimpleFold) over generated and exhaustively enumerated inputs.",
+         "Trusted: Go's html and unicode packages (pinned toolchain, Unicode 15.0)."),
+ "C20": ("property-based testing (rapid) with probe block/inline parsers, paragraph/AST transformers and node renderers of generated priorities, behaviours and registration channels/orders; oracle: priority-sorted reference dispatch (log and output) and equality with the canonical sorted registration; trees with kinds nobody renders / created after renderer initialisation",
+         "Generated registrations against a reference dispatcher written from the documented priority rules; a self-test pins the assumptions about built-in priorities.",
+         "Trusted: the reference dispatcher in checks/c20; built-in priorities as documented."),
 }
 
 NOT_YET = "check not built yet in this session; planned (see DESIGN.md)"
